@@ -30,7 +30,7 @@ SHARDS = {"quick": 6, "thorough": 16}
 WATCHDOG_S = {"quick": 900, "thorough": 7200}
 GENERATOR = {"nx": [25, 40, 60, 100, 200], "r": [4, 8, 16], "t_end": "[2, 12]", "segments": "1 (constant) / 3 (steps down) / 4..5 (arbitrary)"}
 ASSUMPTIONS = [
-    "gap bound (K/nx + 1.25 delta + 0.6 sum |dm_f| / R sqrt(dt_after_change)) x ceiling with K = 1.5 + 2.0 (sqrt(t_end)/r)(1 + 0.45 log2(nx/25)) max(1, sqrt(a_f)), a_f the scaled diffusivity at the lowest frac-face pressure",
+    "gap bound (K/nx + 1.25 delta + 0.6 sum |dm_f| / R sqrt(dt_after_change)) x ceiling with K = 2.0 + 2.5 (sqrt(t_end)/r)(1 + 0.45 log2(nx/25)) max(1, sqrt(a_f)), a_f the scaled diffusivity at the lowest frac-face pressure",
     "delta = max over [p_f, p_i] of |kappa - 1|, kappa = (d rho / d m~)(alpha / alpha_i) / rho_i computed interval by interval from the table columns alone",
     "tables with delta > 0.25 are outside 'thermodynamically consistent' and are not used here",
 ]
@@ -231,7 +231,7 @@ def run_case(ck, desc):
     # the time-quadrature part of the constant belongs to the t^-1/2 flux transient at the fracture
     # face, whose amplitude scales with sqrt(diffusivity there / diffusivity at initial pressure)
     a_f = float(av[0] / np.asarray(fluid.alpha(m_i), dtype=float))
-    Kc = 1.5 + (Kc - 1.5) * max(1.0, math.sqrt(a_f))
+    Kc = 2.0 + 1.25 * (Kc - 1.5) * max(1.0, math.sqrt(a_f))
     bound = (Kc / nx + 1.25 * delta + 0.6 * jump) * ceiling
     if not ck.margin("flux vs in-place gap <= first-order bound", gap, bound):
         ck.violation("recoveries-agree", {"gap": gap, "bound": bound, "gap/ceiling x nx": gap / ceiling * nx, "delta": delta, "jump_term": jump, "nx": nx, "ceiling": ceiling}, desc)
